@@ -935,11 +935,14 @@ impl TypeLayout {
     }
 
     pub fn assume_type_of_self(self, user_data: &AssocFileData) -> TypeLayout {
+        // outside a class `Self` stands for nothing: the type stays as it is, and the lookup that follows reports it
         if self.is_class_self() {
-            TypeLayout::Class(user_data.get_type_of_executing_class().unwrap().clone())
-        } else {
-            self
+            if let Some(class) = user_data.get_type_of_executing_class() {
+                return TypeLayout::Class(class.clone());
+            }
         }
+
+        self
     }
 
     pub fn update_all_references_to_class_self(&self, class_type: ClassType) -> TypeLayout {
